@@ -326,7 +326,88 @@ func c13Body(w *W) {
 	hp := c13Params(w)
 	w.Note(fmt.Sprintf("BFS over Set* histories to depth %d on %d seed documents x {copy,no-copy}: every value position x 9 calls x 3 navigation routes; states deduplicated on exact (Tape,Strings) bytes", hp.maxDepth, len(hp.seeds)))
 	exploreHistories(w, hp)
+	c13TopLevelNull(w)
 	w.Sample(histText(editSeeds[0], Cfg{hasAVX512, true}, []editOp{{kind: opSetNull, p: vpath{0, 1}, route: 0}, {kind: opSetStrEsc, p: vpath{0, 0}, route: 2}}))
+}
+
+// c13TopLevelNull: SetNull addressed to a document's top-level container (the tape then
+// reads root, null, NOP run, closing root). The reference walkers do not model a scalar
+// document, so the oracle is differential: every other document unchanged, this one reads
+// null through Advance+MarshalJSON, and a serialize round trip in every mode reads the same.
+func c13TopLevelNull(w *W) {
+	w.Note("top-level containers: SetNull on the top-level container of every document of every seed (each NDJSON line in turn), read back through Advance + MarshalJSON per root and through a serialize round trip in all 4 modes")
+	for _, seed := range editSeeds {
+		for _, c := range strModes() {
+			text := []byte(seed.text)
+			ndocs := 1
+			if seed.nd {
+				d, _ := ref.ParseND(text)
+				ndocs = len(d)
+			}
+			for di := 0; di < ndocs; di++ {
+				w.res.States++
+				if !w.Mine() {
+					continue
+				}
+				pj, err, p := doParse(c, append([]byte(nil), text...), nil, seed.nd)
+				if err != nil || p != "" {
+					continue
+				}
+				var docs []*ref.Node
+				if seed.nd {
+					docs, _ = ref.ParseND(text)
+				} else {
+					d, _ := ref.Parse(text)
+					docs = []*ref.Node{d}
+				}
+				it, nerr := navigate(pj, vpath{di}, 0)
+				w.res.Transitions++
+				w.res.Evaluations++
+				w.res.Validated++
+				bad := ""
+				after := ""
+				if nerr != nil {
+					bad = "cannot reach the top-level container: " + nerr.Error()
+				} else if serr := it.SetNull(); serr != nil {
+					bad = "SetNull on the top-level container: " + serr.Error()
+				} else {
+					after = topLevelRender(pj)
+					root := pj.Iter()
+					out, merr := root.MarshalJSON()
+					lines := strings.Split(strings.TrimRight(string(out), "\n"), "\n")
+					if merr != nil || len(lines) != len(docs) {
+						bad = fmt.Sprintf("MarshalJSON after SetNull on the top-level container of document %d: %s (%v), want %d documents", di, clip(string(out)), merr, len(docs))
+					} else {
+						for k, l := range lines {
+							if k == di {
+								if l != "null" {
+									bad = fmt.Sprintf("document %d marshals as %s after SetNull on its top-level container", k, clip(l))
+								}
+								continue
+							}
+							got, ok := parseAnyValue([]byte(l))
+							if !ok || !ref.NumericEqual(docs[k], got) {
+								bad = fmt.Sprintf("document %d marshals as %s after SetNull on the top-level container of document %d", k, clip(l), di)
+							}
+						}
+					}
+					if bad == "" {
+						for m := 0; m < 4 && bad == ""; m++ {
+							rt, what := roundTrip(pj, simdjson.CompressMode(m), simdjson.CompressMode((m+1)%4))
+							if what != "" {
+								bad = "serialize round trip (" + modeNames[m] + "): " + what
+							} else if got := topLevelRender(rt); got != after {
+								bad = fmt.Sprintf("after a serialize round trip (%s) the documents read %s, before it %s", modeNames[m], clip(got), clip(after))
+							}
+						}
+					}
+				}
+				if bad != "" {
+					w.Violate(Violation{Harness: "C13-top-level-null", Fingerprint: "C13/top-level-null", What: bad, Case: []byte(fmt.Sprintf("%s#%d", seed.name, di)), CaseText: fmt.Sprintf("seed %s, SetNull on the top-level container of document %d", seed.name, di), Config: c.String()})
+				}
+			}
+		}
+	}
 }
 
 func init() {
